@@ -6,6 +6,10 @@ props = [json.loads(l) for l in open(os.path.join(VERIF, 'properties.jsonl'))]
 ids = [p['id'] for p in props]
 
 CHECKS = {
+ 'C11': dict(engine='E1 enum', category='exploration', design_ref='3 C11',
+   technique='exhaustive service-list permutations x naming channels x registered names and near-misses, per-function invocation records',
+   text='Application layouts with 2-4 services whose methods draw their public names (function name, _operation_name, _in_message_name) from an adversarial pool (get/Get/GET/get_/_get/getx/ge/get.x and a Cyrillic homoglyph); every permutation of the service list; nine naming channels (XML root tag qualified / other namespace / unqualified, SOAP 1.1 and 1.2 body child, JSON, YAML, MessagePack key, msgpack-rpc name field, HttpRpc URL path, JSON over WSGI); every registered name and every near-miss (five case flips, seven one-character prefixes and suffixes, every deletion, doubled, Response-suffixed, empty, space-prefixed). A registered name must run exactly its function under every permutation; a near-miss runs nothing and ends in a Client fault (404 over HTTP); four colliding layouts must be refused at construction in every service order.',
+   note='HttpPattern routing needs werkzeug (absent); an unqualified XML name is documented to default to the target namespace and may run the function registered for it, never another.'),
  'C09': dict(engine='E1 enum', category='exploration', design_ref='3 C09',
    technique='bounded-exhaustive enumeration of fault class x code x message x detail x raising method x protocol x transport; secret-token scan',
    text='Fault, generated Fault subclasses with and without CODE, and the seven built-in error classes x six fault codes (dotted sub-codes, open vocabulary where the protocol allows) x ASCII / non-ASCII / markup / empty messages x none / flat / nested detail, raised from the first, (thorough: middle) and last method, under eight output protocols (thorough: dict family also with wrappers and positional form), through ServerBase, WsgiApplication and the loopback Spyne client for the XML family; ten non-Fault exception types each carrying a fresh secret in arguments, type name and a local variable. The protocol\'s reference fault decoder must give back code, message and detail; HTTP status must be the documented one; the generic Server / Internal Error fault must contain no secret, type name or traceback in status, headers or body.',
